@@ -349,6 +349,8 @@ def assemble(unit_name, out_path=None):
         if s[0] == "extract":
             sp = s[1]
             it = {kk: vv for kk, vv in sp.items() if kk not in ("props", "vx_path", "vx_line")}
+            # `real` is a type keyword inside verus!: a Rust *variable* of that name is always renamed (rule RV)
+            it.setdefault("rename_var", ["real", "real_"])
             it["id"] = k
             items.append(it)
     res = {r["id"]: r for r in run_extractor(items)} if items else {}
